@@ -1,5 +1,44 @@
-"""C10 — placeholder, filled in below."""
+"""C10 — shared source rule (the C10 check itself is not built; C02 uses the injection-form rule)."""
+
+from __future__ import annotations
+
+from ..index import AnalysisError
+from ..srcflow import InjectionAnalysis
 
 
 def source_linearity(ctx, rule="R10.1", for_c02=False):
-    return
+    """Every update_E / update_H a public Source class resolves to is an additive injection whose only
+    dependence on `inverse` is the sign and whose magnitude / region do not depend on the field."""
+    ix = ctx.index
+    base = ix.cls("fdtdx.objects.sources.source.Source")
+    public = ix.public_names()
+    an = InjectionAnalysis(ix)
+    methods = {}
+    classes = []
+    skipped = []
+    for ci in ix.subclasses(base):
+        if ci.name not in public or ix.public_class(ci.name) is not ci:
+            skipped.append(ci.name)
+            continue
+        classes.append(ci.name)
+        for m in ("update_E", "update_H"):
+            fi = ci.lookup_method(m)
+            if fi is None or fi.cls is base:
+                raise AnalysisError(f"public source {ci.name} has no concrete {m}")
+            methods.setdefault(fi.qualname, (fi, []))[1].append(ci.name)
+    err = None
+    for qn, (fi, users) in sorted(methods.items()):
+        try:
+            an.method(fi)
+        except AnalysisError as e:
+            err = err or e
+    for u in an.units:
+        ctx.unit(u)
+    for v in an.verdicts:
+        ctx.ob(rule, v.construct, v.ok, v.detail, v.extracted, v.oracle)
+    if err is not None:
+        raise err
+    ctx.note(f"{rule}: public source classes {sorted(classes)} resolve to {sorted(methods)}; not exported, out of scope: {sorted(skipped)}")
+    ctx.require_count(f"{rule} public source classes", len(classes), 5)
+    ctx.require_count(f"{rule} update methods", len(methods), 6)
+    ctx.require_count(f"{rule} injection sites", an.add_sites, 10)
